@@ -226,7 +226,8 @@ def ex_e2e_nbd(ctx, total, n_obs, var, seed=0):
     _chk(ctx, "e2e delta2 [nbd]", case, res.quantile[1], le, dict(tags, which="delta2"), 1e-7)
 
 
-def ex_e2e_catalog(ctx, sizes, n_obs, seed=0, pre_iterations=0):
+def ex_e2e_catalog(ctx, sizes, n_obs, seed=0, pre_iterations=0, mutate=False):
+    sizes0 = list(sizes)
     import csep.core.catalog_evaluations as ce
     rng = numpy.random.default_rng([seed, 9])
     mags = fixtures.mag_bins("4.95", "0.1", 3)
@@ -243,7 +244,13 @@ def ex_e2e_catalog(ctx, sizes, n_obs, seed=0, pre_iterations=0):
     for _ in range(pre_iterations):
         for _c in cf:
             pass
-    case = {"exec": "e2e_catalog", "args": {"sizes": list(map(int, sizes)), "n_obs": n_obs, "seed": seed, "pre_iterations": pre_iterations}}
+    if mutate:
+        # history: the user filters the synthetic catalogs in place while iterating (CSEPCatalog.filter works in place by default);
+        # the N-test must use the sizes the catalogs have when the test runs
+        for _c in cf:
+            _c.filter("magnitude >= 5.05")
+        sizes = [int(numpy.sum(c.get_magnitudes() >= 5.05)) for c in cats]
+    case = {"exec": "e2e_catalog", "args": {"sizes": list(map(int, sizes0)), "n_obs": n_obs, "seed": seed, "pre_iterations": pre_iterations, "mutate": mutate}}
     ok, res, tb = ctx.call(ce.number_test, cf, obs, verbose=False)
     ctx.mon("e2e:catalog number_test", 1)
     if not ok:
@@ -251,7 +258,7 @@ def ex_e2e_catalog(ctx, sizes, n_obs, seed=0, pre_iterations=0):
         return
     x = numpy.asarray(sizes)
     ge, le = int(numpy.sum(x >= n_obs)) / float(x.size), int(numpy.sum(x <= n_obs)) / float(x.size)
-    tags = {"law": "empirical", "e2e": True, "tie": bool(numpy.any(x == n_obs)), "pre_iterations": pre_iterations}
+    tags = {"law": "empirical", "e2e": True, "tie": bool(numpy.any(x == n_obs)), "pre_iterations": pre_iterations, "mutated_in_place": mutate}
     if res.observed_statistic != n_obs:
         ctx.violate("n_obs is not the catalog's event count", case, observed=res.observed_statistic, expected=n_obs, tags=tags)
     if float(res.quantile[0]) != ge or float(res.quantile[1]) != le:
@@ -346,7 +353,7 @@ def run(ctx):
         J = int(r.integers(1, 40))
         sizes = r.poisson(r.uniform(0.3, 8), J)
         nob = int(r.choice([0, int(sizes.min()), int(sizes.max()), int(sizes[0]), int(sizes.max()) + 1, int(r.integers(0, 12))]))
-        ex_e2e_catalog(ctx, sizes.tolist(), nob, seed=j, pre_iterations=int(j % 4 == 1) + int(j % 8 == 5))
+        ex_e2e_catalog(ctx, sizes.tolist(), nob, seed=j, pre_iterations=int(j % 4 == 1) + int(j % 8 == 5), mutate=bool(j % 5 == 2))
         ctx.count(1)
         if numpy.any(sizes == nob):
             ctx.nt(digest(("emp", sizes.tolist(), nob)))
